@@ -423,35 +423,49 @@ def rule_t3(ctx, facts):
                      "the popped frame's index, index + base_size, base_index" % (f.show(b) if f is not TOP else "a non-affine value"))
         miss = need - seen
         ctx.inst("T3", b, "index update kinds", b.span, not miss, "all of %s present" % sorted(need) if not miss else "missing index update kind(s) %s" % sorted(miss))
-    # guards in recover_state
+    # guards in recover_state, whatever their spelling: some branch decides on  index + frame.length < n  (stay in the frame) and some
+    # branch on  index >= n  (wrap to the next base bin), with n the function's bound parameter (or the local restored from a frame)
+    from .affine import branch_facts
     ev = evaluator(rs)
     g1 = g2 = False
-    for blk in range(len(rs.blocks)):
-        cd = cond_of(rs, blk)
-        if cd and cd["kind"] == "cmp":
-            a, bb = ev.operand(cd["a"]), ev.operand(cd["b"])
-            if a is TOP or bb is TOP:
-                continue
-            nsym = any(s0[0] == "phi" and s0[1] == 2 or s0 == ("arg", 2) for s0 in bb.symbols())
-            if cd["op"] == "Lt" and a == Aff({INDEX: 1, TOPLEN: 1}) and nsym:
-                g1 = True
-            if cd["op"] == "Ge" and a == Aff({INDEX: 1}) and nsym:
-                g2 = True
+
+    def is_n(sym):
+        return sym == ("arg", 2) or (sym[0] == "phi" and sym[1] == 2)
+    for blk, tgt, kind, lin, bound in branch_facts(rs):
+        if kind != "le":
+            continue
+        nsyms = [s0 for s0 in lin.symbols() if is_n(s0)]
+        if len(nsyms) != 1:
+            continue
+        cn = lin.coeff(nsyms[0])
+        rest = lin - Aff({nsyms[0]: cn})
+        # index + len - n <= -1   (or its negation  n - index - len <= 0)
+        if cn == -1 and rest == Aff({INDEX: 1, TOPLEN: 1}) and bound == -1:
+            g1 = True
+        if cn == 1 and rest == Aff({INDEX: -1, TOPLEN: -1}) and bound == 0:
+            g1 = True
+        # n - index <= 0   (index >= n), or index - n <= -1 (its negation)
+        if cn == 1 and rest == Aff({INDEX: -1}) and bound == 0:
+            g2 = True
+        if cn == -1 and rest == Aff({INDEX: 1}) and bound == -1:
+            g2 = True
     # the assignment taken when the sibling bin is still inside the table must be the frame-length stride
-    for blk in range(len(rs.blocks)):
-        cd = cond_of(rs, blk)
-        if cd and cd["kind"] == "cmp" and cd["op"] == "Lt":
-            a = ev.operand(cd["a"])
-            if a is not TOP and a == Aff({INDEX: 1, TOPLEN: 1}):
-                from .facts import Point
-                for field, f, span, pt in index_assignments(rs):
-                    if field == "index" and dominated_by_edge(rs, Point(pt[0], pt[1]), [(blk, cd["true"])]):
-                        k = classify(rs, f) or PRE.get((span, pt))
-                        ok = bool(k) and k[0] == "A"
-                        ctx.inst("T3", rs, "sibling-bin stride", span, ok, "advances by the saved frame length" if ok else
-                                 "when the sibling bin index + frame.length is still inside the table, the index advances by %s instead of the saved "
-                                 "length of the table the forwarding marker was found in: after two generations of forwarding bins are skipped / "
-                                 "visited twice" % (f.show(rs) if f is not TOP else "?"))
+    from .facts import Point
+    stay_edges = []
+    for blk, tgt, kind, lin, bound in branch_facts(rs):
+        if kind != "le":
+            continue
+        nsyms = [s0 for s0 in lin.symbols() if is_n(s0)]
+        if len(nsyms) == 1 and lin.coeff(nsyms[0]) == -1 and (lin - Aff({nsyms[0]: -1})) == Aff({INDEX: 1, TOPLEN: 1}) and bound == -1:
+            stay_edges.append((blk, tgt))
+    for field, f, span, pt in index_assignments(rs):
+        if field == "index" and stay_edges and dominated_by_edge(rs, Point(pt[0], pt[1]), stay_edges):
+            k = classify(rs, f) or PRE.get((span, pt))
+            ok = bool(k) and k[0] == "A"
+            ctx.inst("T3", rs, "sibling-bin stride", span, ok, "advances by the saved frame length" if ok else
+                     "when the sibling bin index + frame.length is still inside the table, the index advances by %s instead of the saved "
+                     "length of the table the forwarding marker was found in: after two generations of forwarding bins are skipped / "
+                     "visited twice" % (f.show(rs) if f is not TOP else "?"))
     ctx.inst("T3", rs, "stay-in-frame test", rs.span, g1, "index + frame.length < n decides between the sibling bin and popping" if g1 else
              "the test `index + frame.length < n` is missing or compares something else")
     ctx.inst("T3", rs, "wrap test", rs.span, g2, "index >= n moves to the next base bin" if g2 else "the wrap test `index >= n` is missing or compares something else")
